@@ -99,9 +99,14 @@ def extra_run(tier, seed, tag):
     recs = []
     for k in range(400 if tier == 'quick' else 40000):
         mac = rng.choice(F.NEAR[:7]) if rng.random() < 0.5 else ''.join('%02x' % rng.choice(B) for _ in range(6))
-        recs.append('%s %d %d %d %d %d' % (mac, rng.choice([576, 1500, 9216, 0, 0xffffffff, rng.randrange(2**32)]), rng.choice(U + [rng.randrange(2**32)]),
+        recs.append('%s %d %d %d %d %d %d' % (mac, rng.choice([576, 1500, 9216, 0, 0xffffffff, rng.randrange(2**32)]), rng.choice(U + [rng.randrange(2**32)]),
                                            rng.choice(U + [rng.randrange(2**32)]), rng.choice([0, 0x10, 0x20, 0x30, 0xffffffef, 0xffffffff, rng.randrange(2**32)]),
-                                           rng.choice([0, 8, 1, 0x41, 0x49, 0xfffffff7, 0xffffffff, rng.randrange(2**32)])))
+                                           rng.choice([0, 8, 1, 0x41, 0x49, 0xfffffff7, 0xffffffff, rng.randrange(2**32)]),
+                                           rng.choice([0, 0, rng.randrange(1, 2**31)])))
+    # the IANA / ARPHRD interface types a real host has, for every class of record (junk % 8 = class)
+    for ift in (6, 1, 24, 71, 131, 53, 772, 801, 803):
+        for cls in range(8):
+            recs.append('%s 1500 %d 1000000000 %d %d %d' % (F.NEAR[0], ift, rng.choice([0, 0x10]), rng.choice([0, 8, 0x41]), 8 * rng.randrange(1, 1000) + cls))
     rp = os.path.join(bdir, 'recs.txt')
     open(rp, 'w').write('\n'.join(recs) + '\n')
     impl = subprocess.run([os.path.join(bdir, 'linuxport')], stdin=open(rp), stdout=subprocess.PIPE, text=True).stdout.strip().split('\n')
@@ -110,7 +115,7 @@ def extra_run(tier, seed, tag):
     for i, rec in enumerate(recs):
         a = impl[i] if i < len(impl) else '<missing>'
         b = model[i] if i < len(model) else '<missing>'
-        mac, mtu, ift, spd, med, fl = rec.split()
+        mac, mtu, ift, spd, med, fl, _junk = rec.split()
         spd, med, fl = int(spd), int(med), int(fl)
         want = 'rec mac=%s mtu=%s iftype=%s speed=%d flags=%d rc=0000' % (mac, mtu, ift, spd // 100, (0x2000 if med & 0x10 else 0) | (0x800 if fl & 8 else 0))
         if a != want:
